@@ -556,6 +556,23 @@ def check_powm1_exact_path(run, ix):
                          line=branch.lineno))
 
 
+    # a size bound on the exact power needs an else: beyond the bound the zero must not be returned either (fourth C13
+    # hunt, repair 399d6d5: powm1(-(1 + 2**-14000), 72) was 0)
+    bounded = [i for i in ast.walk(branch) if isinstance(i, ast.If) and i is not branch and
+               any(t in list(ast.walk(i)) for t in tries) and
+               any(isinstance(c, ast.Constant) or isinstance(c, ast.BinOp) for c in ast.walk(i.test))]
+    for i in bounded:
+        replaced = [a for b in i.orelse for a in ast.walk(b) if isinstance(a, ast.Assign) and norm(a.targets[0]) == w
+                    and not any(isinstance(y_, ast.Name) and y_.id == w for y_ in ast.walk(a.value))]
+        if replaced:
+            run.ok('E-X4', 'beyond the size bound `%s` the zero is replaced as well (line %d)' % (norm(i.test, 40), replaced[0].lineno))
+        else:
+            run.fail(Finding('E-X4', f.file, f.qualname, norm(i.test),
+                             'the exact power is taken only under `%s` and nothing replaces the zero of the summation beyond '
+                             'that bound: powm1(-(1 + 2**-14000), 72) is 0.0 although x**y - 1 is about 2.7e-4213'
+                             % norm(i.test, 50), line=i.lineno))
+
+
 # --------------------------------------------------------------------------- E-X2
 def check_half_integer_route(run, ix):
     """E-X2.  (perfect square)**(k/2) is an exact input/output pair (9**1.5 = 27, 4**5000.5 = 2**10001): it is exact
